@@ -7,22 +7,22 @@ import re
 
 HERE = os.path.dirname(os.path.abspath(__file__))
 ADDED = {
-    "C01": "R-ALL-LEVELS (every writer walks iter_levels() without skip/take/filter adaptors or loop exits), R-PM-LEAVES (leaf directories tile [0,len), decided on polynomial terms), R-RANGES (every range a reader follows is the value the writer got back from the write it describes: block ranges, header ranges), R-BLOCK-GEOM (global = local + 256·position, both sides, on terms), R-INDEX-FRESH (the per-block tile index starts empty), writer-/reader-fields against the layout's member names (a swap applied to both sides is caught), R-PM-LAYOUT (PMTiles sections cannot overlap: root position >= header length, root position + the limit handed to as_directory <= metadata position, as_directory returns only under root_bytes.len() <= limit; terms with HeaderV3::len() resolved)",
-    "C02": "R-AGREE (the stream clips by exactly the coverages the lookup guards by), R-INDEX-SCAN (versatiles chunked stream: position box, position, filter, sorted, slice, chunk extent, every entry in exactly one chunk, every chunk kept); R-INDEX-SCAN accepts chained filters and comparator sorts; reviewed unwrap entries carry the unwrapped call's arguments as terms (seed C02e)",
-    "C03": "pyramid union rule, pairing of insert/include_coord must be unconditional; MBTiles estimate/refine queries must run unconditionally; variables identified by the aggregate they hold, not by name, R-UNION (boxalg.py: on every path of TileBBox::include_bbox / include_coord each edge is the min/max of the old and the included edge, an empty accumulator adopts — the one clause of the declined C15 that coverage properties need)",
+    "C01": "R-ALL-LEVELS (every writer walks iter_levels() without skip/take/filter adaptors or loop exits), R-PM-LEAVES (leaf directories tile [0,len), decided on polynomial terms), R-RANGES (every range a reader follows is the value the writer got back from the write it describes: block ranges, header ranges), R-BLOCK-GEOM (global = local + 256·position, both sides, on terms), R-INDEX-FRESH (the per-block tile index starts empty), writer-/reader-fields against the layout's member names (a swap applied to both sides is caught), R-PM-LAYOUT (PMTiles sections cannot overlap: root position >= header length, root position + the limit handed to as_directory <= metadata position, as_directory returns only under root_bytes.len() <= limit; terms with HeaderV3::len() resolved); after the automatic mutation sweep: R-WRITE-COMPLETE (early exits of the writers only on emptiness facts; one index entry per tile; per tile the sink — append_data / fs write / add_tiles / append + entries.push — is called exactly once with that tile's data; add_tiles inserts every tile and commits once; PMTiles run_length 1 and tile_data range; tar member size), R-PM-DIR (PMTiles directory columns on terms, writer and reader, incl. varints), R-VT-TYPES (versatiles record helpers), R-NAME|reader-components",
+    "C02": "R-AGREE (the stream clips by exactly the coverages the lookup guards by), R-INDEX-SCAN (versatiles chunked stream: position box, position, filter, sorted, slice, chunk extent, every entry in exactly one chunk, every chunk kept); R-INDEX-SCAN accepts chained filters and comparator sorts; reviewed unwrap entries carry the unwrapped call's arguments as terms (seed C02e); R-INDEX-SCAN|last-chunk-kept; R-BOX (TileBBox primitives on terms: intersection, containment, width/height, index<->coordinate, row-major iteration, scale_down, constructors, level guards)",
+    "C03": "pyramid union rule, pairing of insert/include_coord must be unconditional; MBTiles estimate/refine queries must run unconditionally; variables identified by the aggregate they hold, not by name, R-UNION (boxalg.py: on every path of TileBBox::include_bbox / include_coord each edge is the min/max of the old and the included edge, an empty accumulator adopts — the one clause of the declined C15 that coverage properties need); R-COVER-MB|clamp (clamp(0, 2^z - 1) only); R-BOX (shared)",
     "C04": "E-COMP-LEAF|whole-payload (codec streams are drained by one read_to_end / one-shot call, no Read::take, truncate or sub-slice limits the payload), R-PM-LAYOUT (shared with C01), R-CODE mbtiles.format (shared with C01: the MBTiles target implies its compression by the format string)",
-    "C05": "asks-source (no `Ok(None)` between building the coordinate and asking the reader: 404 is the source's own answer), tile-response labelling (get_data passes self.compression/self.tile_mime; new_some stores its own parameters), result-used (body and Content-Encoding tag are the pair returned by optimize_compression on every path), lookup outcomes evaluated abstractly (Err / Ok(None) -> 404, Ok(Some) -> response), allowed-set|not-widened and |from-request (after get_encoding only the compression goal may change; every ok_data call receives that set)",
-    "C06": "from_geo|per-axis (each returned box is, per axis, [min corner, max(max corner, min corner)] or the plain corner under a dominating comparison on that axis), refusals (the lookup may refuse only x >= 2^z || y >= 2^z), levels_rule (per-level pyramid mutators visit every level; slice forms decided on terms), serve|every-source (the wrapper is built per source under a flags-only guard), border rules, coord-from-geo|clamped (a tile index computed from a geographic coordinate is clamped into 0..2^z-1 before it is used), R-BOX-D4 (TileBBox::flip_y / swap_xy decided on terms with mem::swap modelled; the pyramid applies them to every level)",
+    "C05": "asks-source (no `Ok(None)` between building the coordinate and asking the reader: 404 is the source's own answer), tile-response labelling (get_data passes self.compression/self.tile_mime; new_some stores its own parameters), result-used (body and Content-Encoding tag are the pair returned by optimize_compression on every path), lookup outcomes evaluated abstractly (Err / Ok(None) -> 404, Ok(Some) -> response), allowed-set|not-widened and |from-request (after get_encoding only the compression goal may change; every ok_data call receives that set); R-STATUS|arity (three path parts are a tile request)",
+    "C06": "from_geo|per-axis (each returned box is, per axis, [min corner, max(max corner, min corner)] or the plain corner under a dominating comparison on that axis), refusals (the lookup may refuse only x >= 2^z || y >= 2^z), levels_rule (per-level pyramid mutators visit every level; slice forms decided on terms), serve|every-source (the wrapper is built per source under a flags-only guard), border rules, coord-from-geo|clamped (a tile index computed from a geographic coordinate is clamped into 0..2^z-1 before it is used), R-BOX-D4 (TileBBox::flip_y / swap_xy decided on terms with mem::swap modelled; the pyramid applies them to every level); R-SELECT|full-start, |zoom-options, |no-selection, |bbox-arity (each CLI limit applied exactly when its option is given)",
     "C07": "an open whose handle is dropped on the spot (`.is_ok()`) is not a content sink, R-EXACT-KEY (a source without filesystem sinks looks the request path up literally in a map held by self; only the single leading '/' may be removed, crate helpers are looked into)",
     "C08": "E-COMP|unconditional (the re-encoding sits under exactly the conditions of the delivery), pyramid union rule (include_bbox_pyramid merges every level), helper inlining, missing-box / every-source-consulted / asks-missing (no exit from the source loop except `continue` under missing.is_empty()), sources-order (stored sources built with order-preserving combinators only), R-UNION (shared with C03)",
-    "C09": "stage-installed (no successful build path returns the upstream operation), levels_rule incl. slice forms, same-named zoom arguments, both forms of the lookup guard, bbox-unsanitised (the bbox handed to the pyramid intersection is the validated one)",
-    "C10": "R-TABLE-INDEX (list/map of VTLPMap are inverse views; index = list.len() before the push), R-PBF zigzag (shift kinds by operand type), sources-order, id-presence (the feature writer emits the id field for every feature that has one, including id 0)",
-    "C11": "R-JOIN (the keep/merge/replace/drop decision evaluated for all 16 valuations of id present, row found, replace, remove), stage-installed, R-TABLE-INDEX, R-PBF zigzag, R-TOTAL-ORDER (Ord impls used by sorts compare floats with total_cmp), id-presence, E-COMP|output (every payload the runner returns is the re-encoded tile or the decompressed input)",
-    "C12": "f-advisory-fields (lookups never consult the header's trailing zoom/bounds/count fields, which a torn header write can leave at zero), helper inlining for the writer entries, f-empty-index-rejected (every successful block-index decode passes the brotli decoder), provisional header rewrites distinguished from the committing one, fresh-file (the writer opens its output empty — File::create, truncate(true) or create_new(true) — so an interrupted rewrite cannot leave the previous archive's header over partly replaced data), R-WRITE-ERR (every fallible call in the container writers is consumed where it is produced: `?`, unwrap/expect, return, a match whose Err arm leaves)",
+    "C09": "stage-installed (no successful build path returns the upstream operation), levels_rule incl. slice forms, same-named zoom arguments, both forms of the lookup guard, bbox-unsanitised (the bbox handed to the pyramid intersection is the validated one); R-BOX (shared)",
+    "C10": "R-TABLE-INDEX (list/map of VTLPMap are inverse views; index = list.len() before the push), R-PBF zigzag (shift kinds by operand type), sources-order, id-presence (the feature writer emits the id field for every feature that has one, including id 0); R-TABLE-INDEX|pairs (tags are (key index, value index) pairs on both sides), R-PBF varint|read / |write",
+    "C11": "R-JOIN (the keep/merge/replace/drop decision evaluated for all 16 valuations of id present, row found, replace, remove), stage-installed, R-TABLE-INDEX, R-PBF zigzag, R-TOTAL-ORDER (Ord impls used by sorts compare floats with total_cmp), id-presence, E-COMP|output (every payload the runner returns is the re-encoded tile or the decompressed input); tag pairs and varints (shared with C10)",
+    "C12": "f-advisory-fields (lookups never consult the header's trailing zoom/bounds/count fields, which a torn header write can leave at zero), helper inlining for the writer entries, f-empty-index-rejected (every successful block-index decode passes the brotli decoder), provisional header rewrites distinguished from the committing one, fresh-file (the writer opens its output empty — File::create, truncate(true) or create_new(true) — so an interrupted rewrite cannot leave the previous archive's header over partly replaced data), R-WRITE-ERR (every fallible call in the container writers is consumed where it is produced: `?`, unwrap/expect, return, a match whose Err arm leaves); MBTilesWriter::new removes an existing file before opening (only guard: it exists)",
     "C13": "R-CONTENTION (a branch on try_lock & co. applies the same value transformations on both outcomes)",
     "C14": "P2|callback (closures handed to parallel operators capture no Mutex/RwLock/Atomic/Cell/channel), final flush condition must mean non-empty, delegate-adapters / delegate-result for operators that delegate to a spawning operator; the anchor counts spawning + delegating operators",
-    "C16": "R-CACHE-KEY (a cached value is a function of its key), non-empty-where (NULL-to-error queries need a witness row), exact partial-block guard, R-BLOCK-GEOM, R-PM-COVER (shared with C03), R-PM-OFFSET0 (a stored directory offset of 0 resolves to offset + length of the entry decoded just before it, decided on terms), R-FIXED-READ (the only unconditional fixed-size reads are the published headers)",
-    "C17": "R-NUM (f64 Display; float→integer casts in the serialiser bounded by the integer type), R-MERGE (TileJSON::merge visits other.values completely, skips only the keys it combines itself and stores with an overwriting insert — tar/directory readers hand back default().merge(stored))",
+    "C16": "R-CACHE-KEY (a cached value is a function of its key), non-empty-where (NULL-to-error queries need a witness row), exact partial-block guard, R-BLOCK-GEOM, R-PM-COVER (shared with C03), R-PM-OFFSET0 (a stored directory offset of 0 resolves to offset + length of the entry decoded just before it, decided on terms), R-FIXED-READ (the only unconditional fixed-size reads are the published headers); R-SCAN-SKIP (tar / directory scans skip only what failed to parse), R-MB-READ (row.get columns, row guard y > 2^z - 1, parameters and TileJSON from the metadata rows), R-PM-DIR and R-VT-TYPES (shared with C01), depth loop starts at 0",
+    "C17": "R-NUM (f64 Display; float→integer casts in the serialiser bounded by the integer type), R-MERGE (TileJSON::merge visits other.values completely, skips only the keys it combines itself and stores with an overwriting insert — tar/directory readers hand back default().merge(stored)); R-MB-META (MBTiles metadata rows written as (key, its value)), R-META-READ (tar / directory metadata arms merge the decoded member), R-MERGE|structured and skip polarity, tiles.json strings under their own key",
     "C18": "R-ORDER (split() keeps the order of the remaining nodes; build_pipeline wraps them in list order), scalar accessor insists on exactly one entry, parameter-separator (mandatory whitespace between parameters), mistyped (typed bool accessor rejects what is neither true nor false), R-TOKENS|ascii-classes (every character-class test of the parser is ASCII)",
     "C19": "witness kinds counter_bound and guard_before_publish; every reviewed entry stores a snapshot of its dominating guards and lapses when one disappears; R-ALLOC bounds must be proportionate (another run-time quantity or a constant <= 2^24 elements); site keys and fact witnesses independent of local names; the std panic list covers char::encode_utf8/16, clamp, rotate_*, select_nth_unstable*, Duration::from_secs_f*; reviewed R-ALLOC/R-ARITH entries are re-validated like R-PANIC entries; an unsigned value known to differ from 0 has lower bound 1; witness kind set_once (a remembered first value is written only while it is None); reviewed unwrap entries lapse when the argument terms of the unwrapped call change; map[key] under contains_key(key) and v.remove(0) under a first()/last() fact are discharged automatically",
     "C20": "capacity from the byte budget counts key and value; get-rules independent of the if-let/match/combinator idiom",
